@@ -31,6 +31,9 @@ SIZED_WRITERS = {
     'readlink': (1, 2), 'getpwuid_r': (2, 3), 'getgrgid_r': (2, 3), 'read': (1, 2), 'recv': (1, 2),
     '__builtin_memcpy': (0, 2), '__builtin_strncpy': (0, 2), '__builtin_snprintf': (0, 1), 'stpncpy': (0, 2),
 }
+# (source index, byte-count index): the callee reads exactly that many bytes whatever they contain
+SIZED_READERS = {'memcpy': (1, 2), 'memmove': (1, 2), '__builtin_memcpy': (1, 2), '__builtin_memmove': (1, 2),
+                 'write': (1, 2), 'send': (1, 2), 'sendto': (1, 2), 'memcmp': (0, 2), 'mempcpy': (1, 2)}
 UNBOUNDED_WRITERS = {'strcpy': (0, 1), 'stpcpy': (0, 1), 'strcat': (0, 1), 'sprintf': (0, None),
                      'vsprintf': (0, None), 'gets': (0, None), '__builtin_strcpy': (0, 1)}
 STRING_PTR_RESULT = {'strchr', 'strrchr', 'strstr', 'strcasestr', 'strpbrk', 'memchr', 'index', 'rindex'}
@@ -94,6 +97,7 @@ class BoundsAnalysis:
         self.sinks = 0
         self.contract_sites = 0
         self._paired = {}
+        self._rpaired = {}
         self.global_facts = []   # facts about fields etc. supplied by the rule (Lin >= 0)
         self.field_bounds = {}   # struct member name -> (min, max) derived by the rule
         self.ret_summaries = {}
@@ -123,6 +127,54 @@ class BoundsAnalysis:
                     out[i] = j
                     break
         self._paired[f.key] = out
+        return out
+
+    def read_pairs(self, f):
+        """{index of const pointer param: index of its length param} where f hands the two to a sized reader
+        (memcpy source, write, send) or to a callee's read pair: the caller vouches for that many readable bytes"""
+        if f.key in self._rpaired:
+            return self._rpaired[f.key]
+        self._rpaired[f.key] = {}
+        out = {}
+        ps = f.params
+
+        def mentions(node, did):
+            return node is not None and any(n.k == 'DeclRefExpr' and n['ref'].get('id') == did for n in node.walk())
+        for i in range(len(ps)):
+            t = ps[i]['ct'].replace(' ', '')
+            if not (t.endswith('*') or t.endswith('*const')) or t.count('*') != 1 or not ('char' in t or 'void' in t):
+                continue
+            if i in self.paired_params(f):
+                continue
+            for j in range(len(ps)):
+                if j == i or not is_int_type(ps[j]['ct']):
+                    continue
+                hit = False
+                for c in f.calls():
+                    name = c.get('callee')
+                    args = c.ch[1:]
+                    if name in SIZED_READERS:
+                        si, ni = SIZED_READERS[name]
+                        if si < len(args) and ni < len(args) and decl_of(args[si]) is not None and \
+                                decl_of(args[si])['id'] == ps[i]['id'] and strip(args[si]).k == 'DeclRefExpr' and \
+                                decl_of(args[ni]) is not None and decl_of(args[ni])['id'] == ps[j]['id'] and \
+                                strip(args[ni]).k == 'DeclRefExpr':
+                            hit = True
+                    else:
+                        t2 = self.prog.func(name, f.tu) if name else None
+                        if t2 is not None and t2 is not f:
+                            for bi, li in self.read_pairs(t2).items():
+                                if bi < len(args) and li < len(args) and strip(args[bi]).k == 'DeclRefExpr' and \
+                                        (decl_of(args[bi]) or {}).get('id') == ps[i]['id'] and \
+                                        strip(args[li]).k == 'DeclRefExpr' and (decl_of(args[li]) or {}).get('id') == ps[j]['id']:
+                                    hit = True
+                if hit:
+                    # the pair is a contract only if neither parameter is modified before use
+                    if not any(k != 'decl' for k, _ in def_sites(f, ps[i]['id'])) and \
+                            not any(k != 'decl' for k, _ in def_sites(f, ps[j]['id'])):
+                        out[i] = j
+                    break
+        self._rpaired[f.key] = out
         return out
 
     def _mentions_param(self, f, j):
@@ -238,6 +290,7 @@ class _FuncAnalysis:
         for d in func.local_decls():
             self.var_types[d['id']] = d.get('ct', '')
         self.paired = top.paired_params(func)
+        self.rpaired = top.read_pairs(func)
         self.unsigned_syms = set()
         self.collect_returns = None
         self.collect_ptr_returns = None
@@ -295,6 +348,10 @@ class _FuncAnalysis:
                 sp = self.func.params[self.paired[idx]]
                 cap = Lin.sym(('var0', sp['id'], sp['name'] + '@entry'))
             end = Lin.sym(('end', key, 'end(%s)' % p['name']))
+            if cap is None and idx in self.rpaired:
+                # (pointer, length) read contract: the caller guarantees `length` readable bytes
+                sp = self.func.params[self.rpaired[idx]]
+                cap = Lin.sym(('var0', sp['id'], sp['name'] + '@entry'))
             self.regions[key] = Region(key, base, cap, end, p['name'])
         return self.regions[key]
 
@@ -935,6 +992,34 @@ class _FuncAnalysis:
         self.oblige('read', e, text, False, 'cannot prove offset %s of %s is within %s%s' % (
             a - reg.base, render(base), goals[0][1], '' if low else ' (or non-negative)'))
 
+    def check_read(self, st, node, src, nbytes, what):
+        """reading nbytes starting at pointer expression src stays inside src's object (a string may be
+        read up to and including its terminator)"""
+        reg = self.region_of(src, st)
+        if reg is None or (reg.cap is None and reg.end is None):
+            return          # object unknown to the analysis: not an obligation (see not_decided)
+        a = self.lin(src, st)
+        if a is None or nbytes is None:
+            self.oblige('read', node, what, False, 'cannot express the source or the byte count of %s' % render(node)[:80])
+            return
+        goals = []
+        if reg.end is not None:
+            goals.append((reg.end + Lin.const(1) - a - nbytes, 'the string in %s including its terminator' % reg.name))
+        if reg.cap is not None:
+            goals.append((reg.base + reg.cap - a - nbytes, 'capacity(%s) = %s' % (reg.name, reg.cap)))
+        if not nbytes.is_const() and not self.entails(st, nbytes):
+            if any(self.entails(st, g, extra=[nbytes]) for g, why in goals):
+                self.oblige('read', node, what, False, 'the byte count %s can be negative, i.e. wraps around to a huge count' % nbytes)
+                return
+        for g, why in goals:
+            if self.entails(st, g) and self.entails(st, a - reg.base):
+                self.oblige('read', node, what, True, '', how='%s: %s >= 0 entailed' % (why, g))
+                return
+        g, why = goals[0]
+        self.oblige('read', node, what, False, 'cannot prove that %s bytes from offset %s lie within %s: need %s >= 0 '
+                    '(a length reported by someone else, e.g. a would-be length returned by snprintf, is not the '
+                    'length of what is in the buffer)' % (nbytes, a - reg.base, why, g))
+
     def store(self, st, e, l):
         """store through a subscript / dereference"""
         if l.k == 'ArraySubscriptExpr':
@@ -1091,6 +1176,11 @@ class _FuncAnalysis:
                 n = b.scale(a.c) if a.is_const() else (a.scale(b.c) if b.is_const() else None)
             self.check_write(st, e, args[0], n, 'fread(%s)' % render(args[0])[:30])
             return self.kill_strlen_of_region(st, self.region_of(args[0], st))
+        if name in SIZED_READERS and self.top.check_reads:
+            si_, ni_ = SIZED_READERS[name]
+            if si_ < len(args) and ni_ < len(args):
+                self.check_read(st, e, args[si_], self.lin(args[ni_], st), '%s(src %s, %s)' % (
+                    name, render(args[si_])[:25], render(args[ni_])[:25]))
         # contract at call sites of program functions with (buffer, size) parameter pairs
         targets = []
         if name:
@@ -1111,6 +1201,15 @@ class _FuncAnalysis:
                 self.top.contract_sites += 1
                 self.check_write(st, e, args[bi], n, 'contract %s(%s, %s)' % (
                     t.name if name else 'registry member', render(args[bi])[:25], render(args[si])[:25]))
+        if self.top.check_reads:
+            seen_r = set()
+            for t in targets:
+                for bi, li in self.top.read_pairs(t).items():
+                    if (bi, li) in seen_r or bi >= len(args) or li >= len(args):
+                        continue
+                    seen_r.add((bi, li))
+                    self.check_read(st, e, args[bi], self.lin(args[li], st), 'read contract %s(%s, %s)' % (
+                        t.name if name else 'registry member', render(args[bi])[:25], render(args[li])[:25]))
         # writes into argument buffers invalidate strlen facts
         for t in targets:
             for bi in self.top.paired_params(t):
@@ -1280,7 +1379,11 @@ class _FuncAnalysis:
             cur = Lin.sym(('var', p['id'], p['name']))
             ent = Lin.sym(('var0', p['id'], p['name'] + '@entry'))
             init_facts |= {cur - ent, ent - cur}
-            if ct.rstrip().endswith('*') and ('char' in ct or 'void' in ct) and ct.count('*') == 1:
+            ctp = ct.rstrip()
+            for q in ('const', '__restrict', 'restrict'):
+                if ctp.endswith(q):
+                    ctp = ctp[:-len(q)].rstrip()
+            if ctp.endswith('*') and ('char' in ct or 'void' in ct) and ct.count('*') == 1:
                 reg = self.region_for_param(i)
                 regions.add((p['id'], reg.key))
                 if 'char' in ct:
